@@ -2,6 +2,7 @@ package p_kv
 
 import (
 	"context"
+	"fmt"
 	"github.com/acquirecloud/golibs/kvs"
 	"testing"
 	"testing/synctest"
@@ -155,7 +156,7 @@ func c03Drivers(t vstat.TB) []*Driver {
 }
 
 func recordC03(c SCase, info Info) {
-	vstat.For("C03").Case(info.HitExisting, vstat.Hash(c), func() any { return c }, info.ClassList()...)
+	vstat.For("C03").Case(info.HitExisting, vstat.Hash(c), func() any { return c }, append(info.ClassList(), fmt.Sprintf("redis_logical_database:%d", RedisDB()))...)
 }
 
 func TestC03Rapid(t *testing.T) {
